@@ -6,6 +6,10 @@ props = [json.loads(l) for l in open(os.path.join(V, 'properties.jsonl'))]
 
 # id -> (level, engine, technique, level text, level note, design_ref)
 CHECKS = {
+ 'C06': ('model_checking', 'E1-sched', 'crash-point enumeration (before/after every store write) with observer battery + retry, and preemption-bounded DFS of a concurrent reader battery against the in-flight operation, on the real code in a synctest bubble',
+         'Every store write (blob, metadata, vmetadata) of upload / empty upload / diamond commit / label move / new label is a crash point in both variants; after each crash the complete observer battery (listing at 4 page sizes, latest, exists, full download of every visible bundle, labels) runs, the operation is retried and the battery runs again; a concurrent reader runs the same battery under all interleavings with <=2 (thorough 3) preemptions; a journal monitor checks that nothing under a visible bundle is ever written again.',
+         'History fixed to 2 bundles + 1 label (+1 diamond with 2 splits); one crash per execution; reader interleavings at metadata-call granularity.',
+         'DESIGN.md §3 C06'),
  'C12': ('model_checking', 'E1-sched', 'preemption-bounded stateless DFS (CHESS-style) over interleavings of the real split add / commit / cancel call sequences at store-call granularity + crash-point enumeration with retry, in a synctest bubble',
          'The implementation is the protocol model: 7 closed scenarios (commit||commit, commit||cancel, split add||commit, run||rerun of one split, crash+rerun, commit crash+retry, cancel crash+retry); every interleaving with <=2 (thorough 3) preemptions and every crash point (before/after each store write) is executed; invariants I1..I5 and late-actor refusal are evaluated on every end state.',
          'Blob store ungated (content-addressed, idempotent, never read by protocol decisions); 2 actors per scenario; goroutine interleavings finer than a store call inside one process are not enumerated (canonical order).',
